@@ -660,6 +660,24 @@ class FakeNumpy:
         return k
 
     @staticmethod
+    def sort(a, axis=-1, **k):
+        # the entries in increasing order: WHICH entry ends up where depends on the data -- an array sorted on its own loses its pairing with any other array
+        a = as_arr(a)
+        r = Arr(a.shape, a.legs if a.ndim != 1 else [()], a.dt, None, {'sorted_of': a}, 'sort', parents=(a,))
+        ctx().event('reorder', array=a, result=r, detail='np.sort re-orders an array on its own (a data-dependent permutation that no other array shares)')
+        return r
+
+    class _FInfo:
+        def __init__(self, t):
+            import numpy as _np
+            fi = _np.finfo(t if t in (float, complex) else float)
+            self.eps, self.tiny, self.max, self.min, self.resolution = float(fi.eps), float(fi.tiny), float(fi.max), float(fi.min), float(fi.resolution)
+
+    @staticmethod
+    def finfo(t=float):
+        return FakeNumpy._FInfo(t)
+
+    @staticmethod
     def sign(a):
         # -1, 0 or +1 per entry: a factor that VANISHES where the entry is exactly zero (see the `sign-scale` event in Arr._bin)
         if isinstance(a, (int, float)) and not isinstance(a, bool):
@@ -1113,6 +1131,28 @@ def eigs(a, k=6, M=None, sigma=None, v0=None, **kw):
     return (w, v)
 
 
+def eigsh(a, k=6, M=None, sigma=None, which='LM', v0=None, **kw):
+    # the Lanczos sibling of eigs for Hermitian pencils.  In shift-invert mode (sigma given) `which` refers to the TRANSFORMED eigenvalues 1 / (lambda - sigma):
+    # the eigenvalues nearest to sigma are which='LM' (the default); 'LA' / 'SA' / 'BE' select by the signed transformed value
+    w, v = eigs(a, k=k, M=M, sigma=sigma, v0=v0)
+    ev = [e for e in A.CTX.events if e.get('kind') == 'eig'][-1]
+    ev['solver'], ev['which'], ev['hermitian_solver'] = 'eigs', which, True
+    if sigma is not None and which != 'LM':
+        A.CTX.event('eigs-which', which=which, sigma=sigma, detail=f"eigsh(..., sigma={sigma}, which='{which}'): in shift-invert mode `which` applies to 1 / (lambda - sigma), so '{which}' does not return "
+                    f"the eigenvalues nearest to sigma (that is which='LM')")
+    rw = Arr(w.shape, w.legs, 'real', None, dict(w.tags), 'eigsh.w', parents=(w,))
+    return (rw, v)
+
+
+def gmres(a, b, x0=None, tol=None, rtol=None, atol=None, restart=None, maxiter=None, M=None, callback=None, **kw):
+    # an iterative solve: the result satisfies the system to the requested RELATIVE tolerance (SciPy's default 1e-5), and only if the returned flag is 0
+    rel = rtol if rtol is not None else (tol if tol is not None else 1e-5)
+    x = solve(a, b, what='gmres')
+    A.CTX.event('iterative-solve', matrix=as_arr(a), result=x, rtol=rel, detail=f'the system is solved iteratively (gmres) to a relative residual of {rel:g} (atol={atol}); the solvers of this '
+                f'library solve their micro systems directly, to rounding')
+    return (x, Arr((), [], 'int', None, {}, 'gmres.info'))
+
+
 def expm(a):
     a = as_arr(a)
     check_square_system(a, 'expm')
@@ -1161,6 +1201,8 @@ class FakeScipyLinalg:
 class FakeSparseLinalg:
     expm_multiply = staticmethod(expm_multiply)
     eigs = staticmethod(eigs)
+    eigsh = staticmethod(eigsh)
+    gmres = staticmethod(gmres)
 
 
 class FakeSparse:
